@@ -167,12 +167,13 @@ def R1_R2_ladders(run):
     ats = A.atoms(d)
     ok = len(ats) == 1
     if ok:
-        c = ats[0].cond()
-        # tick > 0 is equivalent: both ladders fold to 2^64 at 0 (R4 unit-price checks both)
-        ok = c and c[0] in ("Ge", "Gt") and is_param(c[1], "tick") and const_val(c[2]) == 0
+        # tick > 0 is equivalent: both ladders fold to 2^64 at 0 (R4 unit-price checks both); `tick < 0` with swapped arms is the same test
+        from rules.common import decided
+        dc = decided(ats[0], lambda t: is_param(t, "tick"), ("Ge", "Gt"))
+        ok = dc is not None and const_val(dc[2]) == 0
         if ok:
-            tcalls = {callee_path(t) for b, t in d.calls() if b in cfg.reach(d, ats[0].true_targets[0]) - cfg.reach(d, ats[0].false_targets[0])}
-            fcalls = {callee_path(t) for b, t in d.calls() if b in cfg.reach(d, ats[0].false_targets[0]) - cfg.reach(d, ats[0].true_targets[0])}
+            tcalls = {callee_path(t) for b, t in d.calls() if b in cfg.reach(d, dc[3][0]) - cfg.reach(d, dc[4][0])}
+            fcalls = {callee_path(t) for b, t in d.calls() if b in cfg.reach(d, dc[4][0]) - cfg.reach(d, dc[3][0])}
             ok = tcalls == {TM + "get_sqrt_price_positive_tick"} and fcalls == {TM + "get_sqrt_price_negative_tick"}
             pv = prov_of(d)
             for b, t in d.calls():
@@ -389,6 +390,10 @@ def check_inverse(run, facts, tm, fnname, price_fn, params, rule="R3", tag=""):
         op, a, b = (c[0], c[1], c[2]) if lhs_price else (A.SWAP[c[0]], c[2], c[1])
         a = shallow(a)
         bb_ = shallow(b)
+        negated = False
+        if op == "Gt":
+            # `input < price(high)` with the arms swapped is the same selection
+            op, negated = "Le", True
         ok = op == "Le" and is_var(a[2][0], th) and (is_param(bb_, params[0]) or is_param(bb_, params[1]) or
                                                      (bb_[0] == "call" and len(bb_[2]) == 1 and (is_param(bb_[2][0], params[0]) or is_param(bb_[2][0], params[1]))))
 
@@ -404,7 +409,7 @@ def check_inverse(run, facts, tm, fnname, price_fn, params, rule="R3", tag=""):
         if ok:
             e = eq[0]
             same = e.cond()[0] == "Eq"
-            le_true = c[0] == "Le" if lhs_price else c[0] == "Ge"
+            le_true = (c[0] == "Le" if lhs_price else c[0] == "Ge") if not negated else False
             r_eq = ret_under([(e, same)])
             r_hi = ret_under([(e, not same), (le[0], le_true)])
             r_lo = ret_under([(e, not same), (le[0], not le_true)])
